@@ -89,16 +89,13 @@ def run(tier, seed, only=None):
         sem = [h for h in hs if h.mod]
         known = core.load_known(PID)
         builds = {}
-        if ext:
-            s1 = setup_ext(w)
-            res = s1.run_all(ext, jobs=8)
-            builds["c01k"] = round(s1.build_s, 1)
-            out.add_kani_results(res, s1, known, PID)
-        if sem:
-            s2 = setup_sem(w)
-            res = s2.run_all(sem, jobs=8)
-            builds["yash-semantics"] = round(s2.build_s, 1)
-            out.add_kani_results(res, s2, known, PID)
+        s1 = setup_ext(w) if ext else None
+        s2 = setup_sem(w) if sem else None
+        res = core.run_sessions([(s1, ext), (s2, sem)], jobs=10)
+        for sname, sess in (("c01k", s1), ("yash-semantics", s2)):
+            if sess is not None:
+                builds[sname] = round(sess.build_s, 1)
+                out.add_kani_results(res.get(sess, []), sess, known, PID)
         out.extra.update({"kani_build_s": builds, "repo_state": w.repo_state,
                           "injected": w.injected, "transforms": w.transforms})
 
